@@ -70,7 +70,7 @@ classes of the known findings so that a failure is reported under the new class)
   typed data            orc_layout / orc_agree: non-integer float32 data ('float32-non-integer'), 15-bit integers as int16 /
                         uint16 / int32 / int64 / float32 ('int-15-bit', 'data-<dtype>-<order>'), the full uint16 range
                         ('uint16-full-range'), precision as strided view
-  units                 orc_pairs / orc_agree with case['scale'] in 1e-26 .. 1e+12 (poisson 1e-3, 1e+6), precision fixed or in
+  units                 orc_pairs / orc_agree / orc_calc_one with case['scale'] in 1e-26 .. 1e+12 (poisson 1e-3, 1e+6), precision fixed or in
                         the matching units; compared RELATIVE to the largest expected entry ('units-<scale>')
   containers / labels   orc_pairs: condition and fold descriptors as list / tuple / object / int8 / uint8 / float32 / bool
                         arrays; float labels (also 1e-20 and 1 ulp apart), numeric strings ('labels-<set>-as-<form>');
@@ -787,7 +787,7 @@ def orc_calc_one(case):
                                            cva, cvb, method=case['method'], noise=d['noise'], weighting=weighting,
                                            prior_lambda=d['pl'], prior_weight=d['pw'])
             S[a, b] = val
-            if not close([val], [V[a, b]], TOL):
+            if not _close_case(case, [val], [V[a, b]]):
                 return (f"{case['method']}/{weighting}: calc_one_similarity(conditions {d['uniq'][a]!r},{d['uniq'][b]!r}) = "
                         f'{val}, average over admissible pairs = {V[a, b]}')
             wexp = den[a, b] * (2 if a == b else 1)   # a==a: ordered pairs, i.e. every unordered pair twice
@@ -796,7 +796,7 @@ def orc_calc_one(case):
                         f'weight {wgt}, expected {wexp}')
     full = _unbalanced(_dataset(X, d['labels'], d['folds']), case, d['noise']).dissimilarities[0]
     asm = np.array([S[a, a] + S[b, b] - 2 * S[a, b] for a in range(n) for b in range(a + 1, n)])
-    if not close(full, asm, TOL):
+    if not _close_case(case, full, asm):
         return (f"{case['method']}/{weighting}: full computation {_fmt(full)} differs from S_aa+S_bb-2S_ab of the single-pair "
                 f'helper {_fmt(asm)}')
     return None
@@ -1585,7 +1585,8 @@ def tier_c(run, thorough):
     bd = Bounded(run, 'C15/calc-one', 'C15/calc_one_similarity/oracle/agrees-with-full-computation',
                  'seeded designs (2..5 conditions, 3..12 observations, 3..5 channels), every condition pair incl. a==a; 6 methods '
                  'x noise x 2 weightings x NaN none/chan/obs, with / without folds, float64-C / int64 / float64-F inputs, prior varied; '
-                 '%d seeds' % n_seed, function='calc_one_similarity')
+                 '%d seeds; plus (sweep) one design with the data scaled by 1e-12, 1e-26, 1e+12 (poisson 1e-3, 1e+6; precision in '
+                 'matching units) and as float32-strided / uint16-F' % n_seed, function='calc_one_similarity')
     for seed in range(n_seed):
         rs = np.random.RandomState(7000 + seed)
         for method, noise in _settings(False):
@@ -1610,6 +1611,27 @@ def tier_c(run, thorough):
                             case['pl'], case['pw'] = float(np.round(rs.rand() * 3, 2)), float(np.round(0.05 + rs.rand(), 2))
                         bd.check(orc_calc_one, case, klass(case, 'nan-' + nan if nan != 'none' else 'generic'),
                                  function='calc_one_similarity')
+    # sweep: the helper in extreme units (relative comparison) and on float32 / uint16 / strided data
+    oseq = [1, 0, 2, 0, 1, 1, 2, 0, 2]
+    for method, noise in _settings(False):
+        pois = _KIND[method] == 'poisson'
+        for weighting, with_folds in (('number', False), ('equal', True)):
+            variants = [('units-%g' % sc, dict(scale=sc)) for sc in ((1e-3, 1e+6) if pois else (1e-12, 1e-26, 1e+12))]
+            variants += [('data-float32', dict(values='f32', dtype='float32', order='strided')),
+                         ('data-uint16', dict(values='int-large', vmax=65536, dtype='uint16', order='F'))]
+            for cls, extra in variants:
+                case = dict(seed=4, labels=oseq, P=4, method=method, weighting=weighting)
+                case.update(extra)
+                if pois and extra.get('scale', 1) < 1:
+                    case.update(pl=extra['scale'], pw=0.1)
+                if noise:
+                    case['noise'] = noise
+                    if 'scale' in extra:
+                        case['noise_scale'] = 'inverse'
+                if with_folds:
+                    case['folds'] = _two_fold_design(oseq)
+                if klass(case, cls) == cls:
+                    bd.check(orc_calc_one, case, cls, function='calc_one_similarity')
     bd.done()
     bds.append(bd)
 
